@@ -307,6 +307,13 @@ Definition mutating (l : list N) : bool :=
   | [] => false
   end.
 
+(* the storage steps as printed by show_steps: triples (kind, a, b); kind 1 = the file grows *)
+Fixpoint has_growth (l : list N) : bool :=
+  match l with
+  | k :: _ :: _ :: r => (k =? 1) || has_growth r
+  | _ => false
+  end.
+
 Definition mode_after (ro : bool) (l out : list N) : bool :=
   match l, out with
   | 30 :: mode :: _, [30; 0] => mode =? 2
@@ -327,6 +334,9 @@ Fixpoint run_ops (fuel : nat) (ro : bool) (s : sf) (l : list N) (out_rev : list 
           | Some (out, s', r) =>
               if ro && mutating l then
                 match out with
+                | code :: 0 :: _ :: steps =>
+                    (* UpdateDocument hands back the error of the refused file growth; everything else faults in the mapping *)
+                    run_ops f ro s r ([code; if (code =? 21) && has_growth steps then 1 else 2] :: out_rev)
                 | code :: 0 :: _ => run_ops f ro s r ([code; 2] :: out_rev)
                 | _ => run_ops f ro s r (out :: out_rev)
                 end
